@@ -31,7 +31,7 @@ ASSUMPTIONS = [
     "cut workload assumes T-(v_w) (resp. T+) monotone up to the cut; cases where the real "
     "matching at 10 slower velocities is not monotone are counted, not judged",
 ]
-CASE_TIMEOUT = 600
+CASE_TIMEOUT = 240
 CHUNK = 2
 SETTINGS = [(1e-6, 1e-6), (1e-6, 1e-10), (1e-8, 1e-10)]
 FLOORS = {
